@@ -486,8 +486,15 @@ func c10Reshape(s *logql_parser.LogQLScript, rng *h.Rng) {
 			if err != nil {
 				continue
 			}
+			if old == "" {
+				continue // an empty needle stays empty: it decides the metrics_15s shortcut of a metric query
+			}
 			if p.LineFilter.Fn == "|=" || p.LineFilter.Fn == "!=" {
-				setQ(&p.LineFilter.Val, str())
+				v := str()
+				if v == "" {
+					v = "'"
+				}
+				setQ(&p.LineFilter.Val, v)
 				continue
 			}
 			_, ins, isLike := re2Like(old)
@@ -547,6 +554,10 @@ func c10Reshape(s *logql_parser.LogQLScript, rng *h.Rng) {
 			cand += tail
 			if names1, _, ok1 := c07xParseRe(cand); ok0 && ok1 && len(names0) == len(names1) {
 				setQ(&pp.Val, cand)
+			}
+		case p.Unwrap != nil:
+			if p.Unwrap.Label.Name != "_entry" && p.Unwrap.Label.Name != "" {
+				p.Unwrap.Label.Name = ident()
 			}
 		case p.Drop != nil:
 			for j := range p.Drop.Params {
@@ -685,6 +696,120 @@ func c10Shape(r *h.Result, rng *h.Rng, n int) error {
 		if kinds[2*i] != kinds[2*i+1] {
 			c["sql"], c["sql_other"] = p.t1, p.t2
 			r.Violate("C10/shape/logql", "two queries that differ only in string leaves are planned to statements with different token structure", c)
+		}
+	}
+	return nil
+}
+
+// c10ShapeMetric: the same for metric queries (C08's generator): selector leaves, by/without label names and the unwrap label
+// are replaced; both queries planned by the real clickhouse_planner.Plan
+func c10ShapeMetric(r *h.Result, rng *h.Rng, n int) error {
+	r.Stream("shape-metric: a LogQL metric query and a copy with every string leaf replaced (selector leaves, by/without label names, unwrap label), both planned by the real clickhouse_planner.Plan; model: sameShapeM of the two serialised ASTs (must hold); oracle: equal token kinds of the two real statements")
+	type pair struct {
+		q1, q2, t1, t2 string
+		ctx    mctx
+	}
+	var pairs []pair
+	var ops []string
+	g := mgen{extraFns: true, ms: true}
+	for i := 0; i < n; i++ {
+		query := genMetricQuery(rng, g)
+		mk := func() *logql_parser.LogQLScript {
+			s, err := logql_parser.Parse(query)
+			if err != nil {
+				return nil
+			}
+			return s
+		}
+		a := mk()
+		if a == nil {
+			r.Count("shape-metric:parse-error")
+			continue
+		}
+		serA, err := serMetric(a)
+		if err != nil {
+			r.Count("shape-metric:outside-fragment")
+			continue
+		}
+		seed := rng.Fork()
+		mut := func() *logql_parser.LogQLScript {
+			s := mk()
+			f := *seed
+			ra := rangeOf(s)
+			c10Reshape(&logql_parser.LogQLScript{StrSelector: &ra.StrSel}, &f)
+			ident := func() string { return h.Pick(&f, []string{"g", "by_1", "_w", "Lbl"}) + f.Ident(2) }
+			for _, bw := range []*logql_parser.ByOrWithout{ra.ByOrWithoutPrefix, ra.ByOrWithoutSuffix} {
+				if bw != nil {
+					for j := range bw.Labels {
+						bw.Labels[j].Name = ident()
+					}
+				}
+			}
+			ag := s.AggOperator
+			if s.TopK != nil && s.TopK.AggOperator != nil {
+				ag = s.TopK.AggOperator
+			}
+			if ag != nil {
+				for _, bw := range []*logql_parser.ByOrWithout{ag.ByOrWithoutPrefix, ag.ByOrWithoutSuffix} {
+					if bw != nil {
+						for j := range bw.Labels {
+							bw.Labels[j].Name = ident()
+						}
+					}
+				}
+			}
+			return s
+		}
+		b := mut()
+		serB, err := serMetric(b)
+		if err != nil {
+			r.Count("shape-metric:mutant-outside-fragment")
+			if os.Getenv("C10_DUMP") == "shape" {
+				fmt.Fprintln(c10Stderr, "MUTANT-M", err, "|", query)
+			}
+			continue
+		}
+		c := genMCtx(rng, scriptDuration(a))
+		t1, err1 := implMetricSQL(mk(), c)
+		t2, err2 := implMetricSQL(mut(), c)
+		if err1 != nil || err2 != nil {
+			r.Count("shape-metric:impl-error")
+			continue
+		}
+		ops = append(ops, "c10sameshapem "+serA+" | "+serB)
+		pairs = append(pairs, pair{query, serB, t1, t2, c})
+		r.Case("shape-metric:"+query+"|"+serB, true)
+		r.Count("shape-metric:" + metricShape(a))
+		if clickhouse_planner.AnalyzeMetrics15sShortcut(a) {
+			r.Count("shape-metric:metrics_15s-shortcut")
+		}
+		if i%71 == 0 {
+			r.Sample(map[string]any{"stream": "shape-metric", "query": query, "same_shape_as": serB, "sql": t1, "sql_other": t2})
+		}
+	}
+	ans, err := h.Model(ops)
+	if err != nil {
+		return err
+	}
+	var kops []string
+	for _, p := range pairs {
+		kops = append(kops, "kinds "+h.Hex([]byte(p.t1)), "kinds "+h.Hex([]byte(p.t2)))
+	}
+	kinds, err := h.Model(kops)
+	if err != nil {
+		return err
+	}
+	for i, p := range pairs {
+		c := map[string]any{"stream": "shape-metric", "query": p.q1, "other": p.q2, "ctx": p.ctx}
+		if ans[i] != "1" {
+			r.Disagree("shape-metric", ops[i], "1 (the harness replaced string leaves only)", ans[i], c)
+			r.Count("shape-metric:relation-refused")
+			continue
+		}
+		r.Count("shape-metric:same-shape")
+		if kinds[2*i] != kinds[2*i+1] {
+			c["sql"], c["sql_other"] = p.t1, p.t2
+			r.Violate("C10/shape/logql-metric", "two metric queries that differ only in string leaves are planned to statements with different token structure", c)
 		}
 	}
 	return nil
